@@ -575,6 +575,7 @@ InspectCase(c) ==
                      LET e == Entry(s, o.entry[j].i) IN
                      IF IsErr(e) THEN o.entry[j].err = e.err ELSE o.entry[j].err = "" /\ o.entry[j].v = e.v) \o
   Chk("repr", o.repr = ReprSpec(s) /\ o.str_is_repr) \o
+  Chk("function-spellings-and-alias-modules", o.function_forms_equal) \o
   Concat([j \in DOMAIN o.routes |->
      LET rr == o.routes[j] IN
      Chk("rebuild:" \o rr.route \o ":no-error", rr.err = "") \o
